@@ -76,6 +76,31 @@ pub mod cons_c {
     impl NonFungibleBurnable for ConsC {}
 }
 
+/// A contract that forwards a call: the forwarded invocation runs with this contract as its direct invoker, which is
+/// how a contract address authorises (`require_auth` of the invoker's address holds without any signature).
+pub mod proxy_c {
+    use soroban_sdk::{contract, contractimpl, Address, Env, Symbol, Val, Vec};
+    #[contract]
+    pub struct ProxyC;
+    #[contractimpl]
+    impl ProxyC {
+        pub fn call(e: Env, target: Address, f: Symbol, args: Vec<Val>) -> Val { e.invoke_contract::<Val>(&target, &f, args) }
+    }
+}
+
+/// "Special" members of the address universe (indices into `World::addrs`), see `World::add_special`
+#[derive(Clone, Copy, Debug)]
+pub struct Special {
+    /// the NFT contract's own address: nothing can sign for it (an authorisation entry cannot be mocked for it and
+    /// a contract is never its own invoker), so it NEVER occurs in an authorisation set
+    pub me: usize,
+    /// another contract: it authorises exactly the calls it makes itself (a call whose authorisation set contains
+    /// it is issued THROUGH it), never by a signature
+    pub proxy: usize,
+    /// a classic account (G... address, the all-zero key) nobody holds a key for: never in an authorisation set
+    pub account: usize,
+}
+
 #[derive(Clone, Copy, PartialEq, Eq, Debug)]
 pub enum Fl { Base, Enum, Cons }
 impl Fl {
@@ -196,6 +221,8 @@ pub struct World {
     pub dumps: Vec<String>,
     /// full observation of very many ids: get_approved only for the touched ids (owner_of for all)
     pub light_appr: bool,
+    /// the special addresses at the end of `addrs` (None: only generated plain addresses)
+    pub special: Option<Special>,
 }
 
 /// set once by the C10 binary: traces carry the raw consecutive ownership buckets and are printed as `mkBTrace`
@@ -231,7 +258,7 @@ impl World {
         let mut w = World { e, id, fl, addrs, now: now0, now0, min_ttl, max_ttl, extra_ids: BTreeSet::new(),
                             touched: BTreeSet::new(), sample, steps: vec![], last: Obs::default(), ncalls: 0,
                             hist_approved: vec![], hist_oper: vec![],
-                            dump: BTRACE.load(std::sync::atomic::Ordering::Relaxed), dumps: vec![], light_appr: false };
+                            dump: BTRACE.load(std::sync::atomic::Ordering::Relaxed), dumps: vec![], light_appr: false, special: None };
         w.last = w.observe(&mut Rng::new(0));
         w
     }
@@ -245,13 +272,55 @@ impl World {
         }
     }
 
-    /// invoke `f(args)` with exactly the addresses `auths` authorising this very invocation
+    /// Extend the address universe (before the first call) by the NFT contract's own address, a forwarding contract
+    /// and a classic account: afterwards they occur as owner / recipient / spender / approved account / operator of
+    /// every call kind like any other address.
+    pub fn add_special(&mut self) -> Special {
+        assert!(self.steps.is_empty() && self.ncalls == 0 && self.special.is_none());
+        let k = self.addrs.len();
+        let proxy = self.e.register(proxy_c::ProxyC, ());
+        let account = Address::from_str(&self.e, "GAAAAAAAAAAAAAAAAAAAAAAAAAAAAAAAAAAAAAAAAAAAAAAAAAAAAWHF");
+        self.addrs.push(self.id.clone());
+        self.addrs.push(proxy);
+        self.addrs.push(account);
+        let sp = Special { me: k, proxy: k + 1, account: k + 2 };
+        self.special = Some(sp);
+        self.last = self.observe(&mut Rng::new(0));
+        sp
+    }
+    /// can this address be put into an authorisation set?
+    pub fn can_sign(&self, a: usize) -> bool { match self.special { Some(sp) => a != sp.me && a != sp.account, None => true } }
+    /// drop from the authorisation set of a generated call the addresses nobody can sign for
+    pub fn strip_unsignable(&self, c: &mut Call) {
+        if self.special.is_none() { return; }
+        match c {
+            Call::Transfer { auths, .. } | Call::TransferFrom { auths, .. } | Call::Burn { auths, .. } | Call::BurnFrom { auths, .. }
+            | Call::Approve { auths, .. } | Call::ApproveForAll { auths, .. } => { auths.retain(|a| self.can_sign(*a)); }
+            _ => {}
+        }
+    }
+
+    /// invoke `f(args)` with exactly the addresses `auths` authorising this very invocation: plain addresses by an
+    /// authorisation entry for exactly this invocation, the forwarding contract by being the one that makes the call
     fn invoke_auth<T: soroban_sdk::TryFromVal<Env, Val>>(&self, auths: &[usize], f: &str, args: soroban_sdk::Vec<Val>) -> Option<T> {
         let inv = MockAuthInvoke { contract: &self.id, fn_name: f, args: args.clone(), sub_invokes: &[] };
         let mut uniq: Vec<usize> = auths.to_vec(); uniq.sort(); uniq.dedup();
-        let mocks: Vec<MockAuth> = uniq.iter().map(|a| MockAuth { address: &self.addrs[*a], invoke: &inv }).collect();
+        // (mock_auths would REPLACE the contract at a mocked address by a mock account contract)
+        for a in &uniq { assert!(self.can_sign(*a), "address {} cannot authorise: generator bug", a); }
+        let via = self.special.map(|sp| sp.proxy).filter(|p| uniq.contains(p));
+        let mocks: Vec<MockAuth> = uniq.iter().filter(|a| Some(**a) != via).map(|a| MockAuth { address: &self.addrs[*a], invoke: &inv }).collect();
         self.e.mock_auths(&mocks);
-        let r = self.invoke::<T>(f, args);
+        let r = match via {
+            None => self.invoke::<T>(f, args),
+            Some(p) => {
+                let e = &self.e;
+                let fwd: soroban_sdk::Vec<Val> = soroban_sdk::vec![e, self.id.into_val(e), Symbol::new(e, f).into_val(e), args.into_val(e)];
+                match e.try_invoke_contract::<Val, soroban_sdk::Error>(&self.addrs[p], &Symbol::new(e, "call"), fwd) {
+                    Ok(Ok(v)) => T::try_from_val(e, &v).ok(),
+                    _ => None,
+                }
+            }
+        };
         self.e.mock_auths(&[]);
         r
     }
@@ -537,6 +606,11 @@ impl World {
     }
 
     pub fn gen_call(&self, rng: &mut Rng, p: &Profile) -> Call {
+        let mut c = self.gen_call_raw(rng, p);
+        self.strip_unsignable(&mut c);
+        c
+    }
+    fn gen_call_raw(&self, rng: &mut Rng, p: &Profile) -> Call {
         let tot = p.mint + p.transfer + p.transfer_from + p.burn + p.burn_from + p.approve + p.approve_all + p.advance;
         let mut r = rng.below(tot);
         let na = self.naddr();
